@@ -465,4 +465,72 @@ theorem seq_not_refines :
   revert h2
   decide +kernel
 
+/-! ## non-vacuity -/
+
+/-- arc-based object on a reachable graph in which customer `b` has no entering arc (so the heuristic passes its
+    reset site and CHANGES the instance), grid through `add_time_points` -/
+def nv_I : ArcInst :=
+  ({ g := grun .base {} [.addNode "a" 1 2 (some 5), .addNode "b" 2 6 (some 9), .addNode "d" 0 0 none,
+      .addArc "d" "a" 2 1, .addArc "a" "d" 2 1, .addArc "b" "d" 2 2, .setDepot "d"], T := [] } : ArcInst).addTimePoints
+    [6, 0, 8, 2]
+
+/-- queries, a heuristic run, queries again -/
+def nv_ops : List COp := [.numVars, .objective, .constraints, .heur 100, .numVars, .objective, .heur 100, .numVars]
+
+/-- what a reply says about the number of variables / objective coefficients -/
+def nv_len : COut ArcSpec → Option ℕ
+  | .vars v => some v.length
+  | .obj o => some o.length
+  | _ => none
+
+/-- the premise of `ResetsWhenChanged ArcSpec` is met non-trivially: the first run succeeds with the reset site
+    passed (instance changed: one more arc), the second with the site not passed (instance unchanged) -/
+example : (ArcSpec.heur nv_I 100).toBool = true ∧ ArcSpec.reset nv_I 100 = true ∧
+    (match ArcSpec.heur nv_I 100 with
+     | .ok (J, _) => decide (J.g.arcs.length = nv_I.g.arcs.length + 1) && (ArcSpec.heur J 100).toBool &&
+         !ArcSpec.reset J 100
+     | .error _ => false) = true := by decide +kernel
+
+/-- `refines` / `arc_refines` on that history: the cached object answers 4 variables before and 11 after the run,
+    and so does the cache-free specification -/
+example : (CObj.run ({ inst := nv_I } : CObj ArcSpec) nv_ops).2.map nv_len
+    = [some 4, some 4, none, none, some 11, some 11, none, some 11] := by decide +kernel
+
+example : (SObj.run ({ inst := nv_I } : SObj ArcSpec) nv_ops).2.map nv_len
+    = [some 4, some 4, none, none, some 11, some 11, none, some 11] := by
+  rw [← arc_refines nv_I nv_ops]; decide +kernel
+
+/-- `step_refines` from a coherent NON-initial state (caches filled, one heuristic run done) -/
+example : Coherent ((CObj.run ({ inst := nv_I } : CObj ArcSpec) nv_ops).1.step .objective).1 :=
+  (step_refines arc_resetsWhenChanged _
+    (run_refines arc_resetsWhenChanged _ (coherent_init nv_I) nv_ops).2.2 .objective).2.2
+
+example : ((CObj.run ({ inst := nv_I } : CObj ArcSpec) nv_ops).1.vars.map List.length) = some 11 ∧
+    ((CObj.run ({ inst := nv_I } : CObj ArcSpec) nv_ops).1.obj.map List.length) = some 11 ∧
+    (CObj.run ({ inst := nv_I } : CObj ArcSpec) nv_ops).1.dead = false := by decide +kernel
+
+/-- `queries_irrelevant` / `query_idempotent` instantiated -/
+example : (CObj.run (CObj.run ({ inst := nv_I } : CObj ArcSpec) nv_ops).1 [.numVars]).2
+    = (CObj.run (CObj.run ({ inst := nv_I } : CObj ArcSpec) [.heur 100, .heur 100]).1 [.numVars]).2 :=
+  (queries_irrelevant arc_resetsWhenChanged nv_I nv_ops [.numVars]).2
+
+/-- sequence-based: the hypothesis `names.Nodup` of `seq_refines` holds for the constructor applied to the
+    reachable graph `C15.nv_g` (one vehicle, three positions: the run adds a dummy vehicle and passes the reset site) -/
+def nv_S : SeqInst := ((SeqInst.new C15.nv_g false).setMaxVehicles 1).setMaxSeqLen 3
+
+theorem nv_S_nodup : nv_S.g.names.Nodup := by decide +kernel
+
+def nv_lenS : COut SeqSpec → Option ℕ
+  | .vars v => some v.length
+  | .obj o => some o.1.length
+  | _ => none
+
+example : SeqSpec.reset nv_S 100 = true ∧
+    (CObj.run ({ inst := nv_S } : CObj SeqSpec) nv_ops).2.map nv_lenS
+      = [some 3, some 3, none, none, some 6, some 6, none, some 6] := by decide +kernel
+
+example : (SObj.run ({ inst := nv_S } : SObj SeqSpec) nv_ops).2.map nv_lenS
+    = [some 3, some 3, none, none, some 6, some 6, none, some 6] := by
+  rw [← seq_refines nv_S nv_S_nodup nv_ops]; decide +kernel
+
 end Vrp.C14
